@@ -339,6 +339,8 @@ func checkC09(p *Prog, r *Report) {
 	// … and what a handler reads from a store is not modified in place (the bytes belong to the store's shared cache: a
 	// simulation on one node would leak into its committed view)
 	checkStoreGetNotModified(p, r, "C09")
+	// the same query answers on every node: every view of a token shows the stored fields (not the querying node's block time)
+	pnftViewsAgree(p, r, kp)
 	// D2 map ranges
 	nMap := 0
 	for _, fn := range scope {
